@@ -8,7 +8,13 @@
 (*                       event held at each position.  Positions with the  *)
 (*                       same identifier are TWINS: the list holds the     *)
 (*                       same event (or an equal one, same uuid) twice,    *)
-(*                e  |-> sequence of pairs <<a, b>>, a <= b, of identifiers]*)
+(*                e  |-> sequence of pairs <<a, b>>, a <= b, of identifiers,*)
+(*                ret |-> the type in which the comparison function hands  *)
+(*                       its answer back: "bool", "np_bool" (numpy.bool_,   *)
+(*                       what adj[i, j] or np.isclose give), "int" (0 / 1)] *)
+(* The statement quantifies over ANY symmetric comparison function; two    *)
+(* events are similar when its answer is TRUE IN PYTHON'S SENSE (truthy),  *)
+(* so the graph -- and every clause -- is the same for every ret.          *)
 (* The comparison function of the binder sees events, not positions: it    *)
 (* answers f(a, b) by looking the unordered identifier pair up in e, so    *)
 (* the relation on positions is twin-consistent by construction            *)
@@ -28,7 +34,8 @@ Ids(c)   == Range(c.id)
 IdEdge(c, a, b) == \E k \in DOMAIN c.e : c.e[k] = <<a, b>> \/ c.e[k] = <<b, a>>
 Edge(c, i, j)   == i # j /\ IdEdge(c, c.id[i], c.id[j])
 Mult(c, a)      == Cardinality({i \in Nodes(c) : c.id[i] = a})          \* how often event a occurs in the list
-WellFormed(c)   == /\ Len(c.id) = c.n
+RetTypes == {"bool", "np_bool", "int"}
+WellFormed(c)   == /\ Len(c.id) = c.n /\ c.ret \in RetTypes
                    /\ \A k \in DOMAIN c.e : /\ c.e[k][1] \in Ids(c) /\ c.e[k][2] \in Ids(c) /\ c.e[k][1] <= c.e[k][2]
                                             /\ (c.e[k][1] = c.e[k][2] => Mult(c, c.e[k][1]) >= 2)
 
